@@ -1,5 +1,5 @@
 //@@ attach: hll/union.rs
-//@@ needs: hll_estimator.rs hll_array8.rs hll_array6.rs hll_array4.rs hll_aux_map.rs
+//@@ needs: hll_estimator.rs hll_array8.rs hll_array6.rs
 // HllUnion: register-wise maximum folded to the smallest lg_k, order independence, out-of-order
 // handling, to_sketch independence of the target type.
 use super::*;
@@ -165,4 +165,36 @@ fn c03_to_sketch_type_independent() {
     kani::cover!(ooo);
     kani::cover!(!ooo && hip > 1.0);
     core::mem::forget((u, s8, s6, s4));
+}
+
+//@ props: C03 C17
+//@ tier: quick
+//@ timeout: 900
+//@ functions: hll::union::HllUnion::reset
+//@ functions: hll::union::HllUnion::new
+//@ functions: hll::union::HllUnion::lg_config_k
+//@ functions: hll::union::HllUnion::is_empty
+//@ bounds: unions with every lg_max_k in 4..=21 (symbolic) whose gadget was down-sized to an array at lg_k = 3 with symbolic registers, or is still the fresh list
+//@ desc: reset() restores the initial state: an empty Hll8 list-mode gadget at lg_max_k (not at the down-sized lg_k), so a reset union behaves like a new one; new() starts empty at lg_max_k
+#[kani::proof]
+#[kani::unwind(12)]
+fn c03_union_reset_restores_initial_state() {
+    let lg_max_k: u8 = kani::any();
+    kani::assume(lg_max_k >= 4 && lg_max_k <= 21);
+    let fresh = HllUnion::new(lg_max_k);
+    assert!(fresh.is_empty() && fresh.lg_config_k() == lg_max_k && fresh.lg_max_k() == lg_max_k);
+    assert!(matches!(fresh.gadget.mode(), Mode::List { hll_type: HllType::Hll8, .. }));
+    let r = any_regs8();
+    let downsized: bool = kani::any();
+    let mut u = HllUnion {
+        lg_max_k,
+        gadget: if downsized { sketch8(&r, true) } else { HllSketch::new(lg_max_k, HllType::Hll8) },
+    };
+    u.reset();
+    assert!(u.is_empty(), "reset union is not empty");
+    assert!(u.lg_config_k() == lg_max_k, "reset union kept a stale (down-sized) lg_k");
+    assert!(u.lg_max_k() == lg_max_k);
+    assert!(matches!(u.gadget.mode(), Mode::List { hll_type: HllType::Hll8, .. }), "reset union is not in list mode / Hll8");
+    kani::cover!(downsized && lg_max_k == 12);
+    core::mem::forget((fresh, u));
 }
